@@ -71,6 +71,10 @@ struct Runner {
             // may fail only if the message genuinely does not fit contiguously; must succeed with 12 bytes of slack
             if ((uint64_t) size + 12 <= free_lo) {
                 fail("alloc_refused", strf("alloc(%u) refused although a contiguous free region of %u bytes exists (cap %u, %zu queued)", size, free_lo, cap, real_count()));
+            } else if (was_empty && (uint64_t) size + 8 <= cap) {
+                // an empty queue can always reset its pointers: everything that passes the size limit (payload + 4-byte length
+                // prefix + 4 bytes for the wrap marker <= capacity) fits, so this is the usable capacity of an emptied queue
+                fail("alloc_refused", strf("alloc(%u) refused on an empty queue of capacity %u (usable capacity of an emptied queue is capacity - 8 = %u)", size, cap, cap - 8));
             }
             return;
         }
@@ -135,13 +139,13 @@ struct Runner {
         if (err.empty() && mrb.count != real_count()) fail("count", strf("count=%u after pop, model has %zu", mrb.count, real_count()));
     }
     void drain_check() {
-        // once emptied, any message up to the usable capacity (cap-12) can be allocated again
+        // once emptied, any message up to the usable capacity (cap-8) can be allocated again
         while (real_count() && err.empty()) pop();
         if (!err.empty() || cap < 12) return;
-        uint32_t s = cap - 12;
+        uint32_t s = cap - 8;
         q.clear();   // emptied: a leftover marker must not keep the implementation from re-using the buffer
         alloc(s);
-        if (err.empty() && real_count() == 0) fail("usable_capacity", strf("after emptying the queue alloc(%u) = cap-12 was refused", s));
+        if (err.empty() && real_count() == 0) fail("usable_capacity", strf("after emptying the queue alloc(%u) = cap-8 was refused", s));
         if (err.empty()) pop();
     }
 };
